@@ -102,6 +102,18 @@ CLAIMED = {
         "contract-based deductive verification: own VC generator over the real source, ghost ownership discipline for PRNG keys, frame conditions",
         "DESIGN.md §3 C10",
     ),
+    "C09": (
+        "proof",
+        "Proved (34 obligations): KernelSequence.transition runs the kernels in order, each from its predecessor's state; RW, MH, IWLS, HMC, "
+        "NUTS and Gibbs transitions return either the very state they were given or update_state(P, given state) with P holding exactly the "
+        "kernel's own position keys (mh_step by its C05 contract, blackjax by A-BJX); LieselInterface/GooseModel.update_state restores the state, "
+        "clears all flags, assigns by node/variable name, performs ONE FULL model update and returns the model state, log_prob reads the stored "
+        "_model_log_prob. That a full update recomputes every derived node is C01. Bounded stand-in: closed-form recomputation of all derived "
+        "quantities after every transition on a Liesel and a dict model.",
+        "A-BJX (blackjax returns a position with the keys it was given), A-PURE user functions; model.update semantics from C01.",
+        "contract-based deductive verification: own VC generator over the real source, frame conditions via term structure, callee contracts",
+        "DESIGN.md §3 C09",
+    ),
 }
 
 NOT_APPLICABLE = {
